@@ -964,6 +964,63 @@ def sweep(fx, R):
             elif written - keys:
                 R.holds('H14', inst, 'same-value shortcut; everything re-initialised past it (%s) is written by no other method' % ', '.join(sorted(written - keys)), fx.rel(x.get('loc') or f['loc']), 'E-STATE')
             break
+    # ---- H16: work skipped because the ARGUMENT OBJECT is the one seen last time (identity key) -----------------------------------------------
+    # `if (&points == last_ && points.size() == n_) return;  last_ = &points; ... results computed from the elements of points ...`: the key is the address (and at most the size) of a by-reference
+    # argument.  The elements of a container can change while its address and size stay the same (a cloud moved in place between two registrations, another set allocated where the old one was), so the
+    # stored results are those of other contents - the answer is not a function of the argument the property quantifies over
+    for f in sorted(fns, key=lambda f: f['q']):
+        cls = f.get('cls')
+        if not cls or f.get('ctor') or f.get('body') is None or not f.get('params') or f['body'].get('k') != 'Compound':
+            continue
+        pids = {p_['id']: p_ for p_ in f['params'] if (p_.get('t') or {}).get('ref') or (p_.get('t') or {}).get('s', '').rstrip().endswith('&')}
+        if not pids:
+            continue
+        top = f['body']['s']
+        for i_, x in enumerate(top):
+            if x.get('k') == 'Decl' or (x.get('k') == 'Expr' and not stores_in(x)):
+                continue
+            if not (x.get('k') == 'If' and x.get('e') is None and any(isinstance(y, dict) and y.get('k') == 'Return' for y in walk(x.get('t'))) and not stores_in(x.get('t'))):
+                break
+            ident, content, par_id = None, False, None
+            for cj in conjuncts(x['c']):
+                sides = None
+                if cj.get('k') in ('Bin', 'Op') and cj.get('op') == '==':
+                    sides = (cj['l'], cj['r']) if cj.get('k') == 'Bin' else tuple(cj.get('args', [])[:2])
+                addr = None
+                if sides:
+                    for a_, b_ in (sides, sides[::-1]):
+                        a0 = strip_casts(a_)
+                        if a0.get('k') == 'Un' and a0.get('op') == '&' and strip_casts(a0['e']).get('k') == 'Ref' and strip_casts(a0['e']).get('id') in pids and base_member(b_) is not None \
+                                and base_member(b_).get('cls') == cls:
+                            addr = (strip_casts(a0['e'])['id'], base_member(b_)['name'])
+                if addr:
+                    ident, par_id = addr[1], addr[0]
+                    continue
+                # any other conjunct: reading the argument beyond size()/empty() is a look at its contents
+                for y in walk(cj):
+                    if isinstance(y, dict) and y.get('k') == 'Ref' and y.get('id') in pids:
+                        content = content or not any(isinstance(z, dict) and z.get('k') == 'MCall' and z.get('m') in ('size', 'empty', 'rows', 'cols') and strip_casts(z.get('obj') or {}) is y
+                                                     or (isinstance(z, dict) and z.get('k') == 'MCall' and z.get('m') in ('size', 'empty', 'rows', 'cols') and strip_casts(z.get('obj') or {}).get('id') == y.get('id'))
+                                                     for z in walk(cj))
+            if ident is None:
+                break
+            rest = {'k': 'Compound', 's': top[i_ + 1:]}
+            reads_elems = any(isinstance(y, dict) and ((y.get('k') == 'Op' and y.get('op') in ('[]', '()') and y.get('args') and strip_casts(y['args'][0]).get('id') == par_id)
+                                                        or (y.get('k') == 'RangeFor' and any(isinstance(z, dict) and z.get('k') == 'Ref' and z.get('id') == par_id for z in walk(y.get('range') or y.get('r') or {})))
+                                                        or (y.get('k') in ('MCall',) and y.get('m') in ('begin', 'end', 'cbegin', 'cend', 'front', 'back', 'at', 'data') and strip_casts(y.get('obj') or {}).get('id') == par_id)
+                                                        or (y.get('k') in ('Call', 'MCall') and y.get('inrepo') and any(strip_casts(a_).get('id') == par_id for a_ in y.get('args', []))))
+                              for y in walk(rest))
+            inst = '%s:identity-keyed-skip:%s' % (f['q'].split('(')[0], ident)
+            pname = pids[par_id]['name']
+            if content:
+                R.undecided('H16', inst, '%s() skips its work when the argument object is the one remembered in `%s` and a further condition looks at its contents; that condition is not judged' % (f['name'], ident))
+            elif reads_elems:
+                R.violated('H16', inst, '%s() returns at once when `%s` (`%s` remembers the ADDRESS of the argument of the previous call); past that test it computes its results from the elements of `%s`.  The elements '
+                           'of a container change while its address and size stay the same (points moved in place between two calls, another set of the same size allocated where the old one was): the second call '
+                           'then keeps the results of the first contents - what the object reports is not a function of the argument' % (f['name'], pp(x['c'])[:110], ident, pname), fx.rel(x.get('loc') or f['loc']), 'E-PURE')
+            else:
+                R.holds('H16', inst, 'identity-keyed shortcut; the work it skips does not read the elements of `%s`' % pname, fx.rel(x.get('loc') or f['loc']), 'E-PURE')
+            break
     # ---- H15: a member refreshed on demand under a pending flag ------------------------------------------------------------------
     # `if (!upToDate_) { m_ = g(source_); upToDate_ = true; } ... use m_` in a query Q, with other methods marking the refresh pending.  A method W that stores m_ directly (it knows the right value for
     # the problem it just solved) without touching the flag leaves a pending refresh armed: the next Q overwrites W's value with g(source_), computed from what the method that armed the flag left
